@@ -1746,7 +1746,27 @@ fn c15(args: &Args) -> ! {
                 continue;
             }
             for order in permutations(n) {
-                rdescs.push(RefCase { n, f: f.clone(), order, sorted: true, extra_col: false, keys: keys.clone(), mode: 0 });
+                rdescs.push(RefCase { n, f: f.clone(), order: order.clone(), sorted: true, extra_col: false, keys: keys.clone(), mode: 0 });
+                // trees only (no self reference) with plain 0 at the roots
+                if f.iter().enumerate().all(|(k, t)| *t != Some(k)) && f.iter().any(|t| t.is_none()) {
+                    rdescs.push(RefCase { n, f: f.clone(), order, sorted: true, extra_col: false, keys: keys.clone(), mode: 1 });
+                }
+            }
+        }
+    }
+    // deep structures sorted on their references: the creator needs several sort passes to reach
+    // the fixed point (chains of 10/40 entries, binary heaps of 100/3000 entries), inserted in
+    // order, reversed and interleaved, in both encodings of the reference
+    for (n, heap) in [(10usize, false), (40, false), (100, true), (3000, true)] {
+        if n == 3000 && !t && false {
+            continue;
+        }
+        let f: Vec<Option<usize>> = (0..n).map(|k| if k == 0 { None } else if heap { Some((k - 1) / 2) } else { Some(k - 1) }).collect();
+        let keys: Vec<Vec<u8>> = (0..n).map(|k| format!("{:05}", (k * 7919) % 100_003).into_bytes()).collect();
+        let orders: Vec<Vec<usize>> = vec![(0..n).collect(), (0..n).rev().collect(), (0..n).map(|k| if k % 2 == 0 { k / 2 } else { n - 1 - k / 2 }).collect()];
+        for order in orders {
+            for mode in [0u8, 1] {
+                rdescs.push(RefCase { n, f: f.clone(), order: order.clone(), sorted: true, extra_col: false, keys: keys.clone(), mode });
             }
         }
     }
@@ -1773,12 +1793,18 @@ fn refsort_result(case: &RefCase) -> CaseResult {
             vals: vec![
                 Val::A(case.keys[k].clone()),
                 match case.f[k] {
+                    // mode 1: "parent + 1, 0 = no parent": roots hold the plain constant 0 (the sort
+                    // key column mixes plain and bound values); mode 0: the target's position, roots
+                    // hold a delayed constant above every position
+                    Some(t) if case.mode == 1 => Val::RefP1(t),
                     Some(t) => Val::Ref(t),
+                    None if case.mode == 1 => Val::U(0),
                     None => Val::UW(n as u64 + 7),
                 },
             ],
         })
         .collect();
+    let root_value = if case.mode == 1 { 0 } else { n as u64 + 7 };
     let spec = DirSpec { schema, entries, indexes: simple_index(n) };
     let mut cj = case.json();
     cj["refsort"] = json!(true);
@@ -1813,7 +1839,7 @@ fn refsort_result(case: &RefCase) -> CaseResult {
         }
         for k in 0..n {
             let p = pos_of_key[&case.keys[k]];
-            let want = match case.f[k] { Some(t) => pos_of_key[&case.keys[t]], None => n as u64 + 7 };
+            let want = match case.f[k] { Some(t) => pos_of_key[&case.keys[t]] + if case.mode == 1 { 1 } else { 0 }, None => root_value };
             if rows[p as usize].1 != want {
                 return Err(("C15 reference does not resolve to the final position".into(), format!("entry {k} (at {p}) stores {}, its target is at {want}; rows {rows:?}", rows[p as usize].1)));
             }
